@@ -18,15 +18,21 @@ SeqsUpTo(A, n) == UNION {[1..k -> A] : k \in 0..n}
 ParamLists == SeqsUpTo(ParamAlphabet, MaxP)
 FormatLists == SeqsUpTo(FormatAlphabet, MaxF)
 
+\* the list is followed by further parameters: whatever the decoder leaves unread would be
+\* taken for the next parameter
+McBaseAfter == [McReqMin EXCEPT !.options = <<AuthOptsFull>>, !.pinUvAuthProtocol = <<BN(2)>>]
+GaBaseAfter == [GaReqMin EXCEPT !.options = <<AuthOptsFull>>]
+
 ParamCases ==
-    {SentCase(1, [McReqMin EXCEPT !.pubKeyCredParams = l], "params-list", F) : l \in ParamLists}
+    {SentCase(1, [McBaseAfter EXCEPT !.pubKeyCredParams = l], "params-list", F) : l \in ParamLists}
+    \cup {SentCase(1, [McReqMin EXCEPT !.pubKeyCredParams = l], "params-list-last", F) : l \in SeqsUpTo(ParamAlphabet, 3)}
     \cup {TypeDecCase("Params", HostEncTy(T_Params, l, F), "params-list-standalone") @@ [sv |-> <<l>>] :
              l \in SeqsUpTo(ParamAlphabet, 3)}
 
 AlgValues == {-2147483647 - 1, -65537, -257, -25, -9, -8, -7, -6, -1, 0, 1, 23, 24, 2147483647}
 TypeStrings == {<< >>, <<112>>, N_publicKey, AsciiPattern(1, 31), AsciiPattern(1, 32)}
 AlgCases ==
-    {SentCase(1, [McReqMin EXCEPT !.pubKeyCredParams = <<[alg |-> a, type |-> t], ParamOf(ALG_EdDSA)>>], "params-alg", F) :
+    {SentCase(1, [McBaseAfter EXCEPT !.pubKeyCredParams = <<[alg |-> a, type |-> t], ParamOf(ALG_EdDSA)>>], "params-alg", F) :
         a \in AlgValues, t \in TypeStrings}
 
 \* a long list (the changelog promises more than twelve entries are fine)
@@ -39,6 +45,8 @@ LongCases ==
 FormatCases ==
     {SentCase(1, [McReqMin EXCEPT !.attestationFormatsPreference = <<l>>], "formats-list-mc", F) : l \in FormatLists}
     \cup {SentCase(2, [GaReqMin EXCEPT !.attestationFormatsPreference = <<l>>], "formats-list-ga", F) : l \in FormatLists}
+    \* the format list is the last parameter of both commands; inside a descriptor-bearing request
+    \* nothing follows it either, so the "followed by" case is exercised through the parameter list
 
 MC_Cases == ParamCases \cup AlgCases \cup LongCases \cup FormatCases
 
